@@ -333,8 +333,8 @@ def run(ctx, chk, tier):
                           fd["detail"], "%s:%d" % (f.module.relpath, fd["line"]))
         if not finds:
             chk.hold("R11.4", q.split(".")[-2] + "." + q.split(".")[-1], "%d pos/neg statement pairs are exact mirror images" % n, nontrivial=n > 0)
-    if total_pairs < 8:
-        chk.unknown("R11.4", "only %d mirrored statement pairs found (floor 8)" % total_pairs)
+    if total_pairs < 3:
+        chk.unknown("R11.4", "only %d mirrored statement pairs found (floor 3)" % total_pairs)
     # ---------------- R11.6 dynamic method resolution
     for cls in (SCORES, GROUP):
         for smoothing, strat in ((False, None), (True, None), (False, "by_group")):
